@@ -18,6 +18,25 @@ func init() {
 }
 
 func c17(c *Ctx) {
+	c.lockPgnoGuards("lockpgno")
+	{
+		p := c.P
+		// rollback writes only pages of the original database (the journal checksum does not cover the page number)
+		rs := "litefs.(*DB).rollbackJournalSegment"
+		pg := "litefs.(*JournalReader).ReadFrame(p2)#0"
+		c.Guarded("rollback/within-original-size", rs, p.PlainCalls("litefs.(*DB).writeDatabasePage"), gs(G(pat("(p2.commit < "+pg+")")+"|"+pat("("+pg+" > p2.commit)"), false)), 1,
+			"a journal record is written back only when its page number does not exceed the database size recorded in the journal header (not the current size)", "a record for page 4294967295 is written terabytes past the end and grows the checksum cache to four billion entries (a near-hang); bounding by the current page count instead loses the pages a shrinking transaction cut off")
+		// WAL frames: page zero is never valid
+		wr := "litefs.(*WALReader).ReadFrame"
+		zero := G(`\(0 == encoding/binary\.\(bigEndian\)\.Uint32\(encoding/binary\.BigEndian, .*\[0:\]\)\)|\(encoding/binary\.\(bigEndian\)\.Uint32\(encoding/binary\.BigEndian, .*\[0:\]\) == 0\)`, false)
+		c.Guarded("wal-valid/frame-page-nonzero", wr, p.SuccessReturn, gs(zero), 1, "a WAL frame is accepted only when its page number is not zero", "SQLite never accepts such a frame; the checkpoint would compute a negative offset after other frames were already copied")
+		// checkpoint: WAL page size equals the database's (or teaches it)
+		ro := "litefs.(*DB).readWALPageOffsets"
+		c.GuardedPaths("ckpt/wal-page-size-matches", ro, p.PlainCalls("litefs.(*WALReader).ReadFrame"), [][]*Guard{{
+			G(pat("(0 == p0.pageSize)")+"|"+pat("(p0.pageSize == 0)"), true),
+			G(pat("(litefs.(*WALReader).PageSize(@@) == p0.pageSize)")+"|"+pat("(p0.pageSize == litefs.(*WALReader).PageSize(@@))"), true),
+		}}, 1, "frames are scanned for a checkpoint only when the WAL's page size is the database's, or the database has none yet (then it is taken from the WAL)", "frames are copied in database-page units at offsets computed from the WAL page size: a mismatch copies misaligned bytes; page size 0 trips the 'page size required' assertion")
+	}
 	c.walFrameReads("wal-frame/page-after-header")
 	p := c.P
 	c.divGuards("div")
